@@ -45,6 +45,11 @@ Theorem C14_bijection : forall src nc d d', Inv src -> ser_data_spec src nc d ->
   (forall e1 e2 t, same_marker src tgt e1 t -> same_marker src tgt e2 t -> e1 = e2).
 Proof. exact c14_bijection. Qed.
 
+(* exactly one target entity per record, i.e. per marked source entity *)
+Theorem C14_entity_count : forall src nc d d', Inv src -> ser_data_spec src nc d -> Permutation d d' ->
+  length (l_entities (sl_life (deserialize sl_empty d'))) = length d.
+Proof. exact c14_entity_count. Qed.
+
 Theorem C14_serialize_data_spec : forall w nc d, Inv w -> serialize w nc = Some d -> ser_data_spec w nc d.
 Proof. exact serialize_spec. Qed.
 
@@ -96,6 +101,7 @@ Proof. vm_compute. repeat split; auto. Qed.
 Print Assumptions C14_serialize_image.
 Print Assumptions C14_round_trip.
 Print Assumptions C14_bijection.
+Print Assumptions C14_entity_count.
 Print Assumptions C14_recursive_closure.
 Print Assumptions C14_recursive_round_trip.
 Print Assumptions C14_recursive_fuel_enough.
